@@ -172,4 +172,23 @@ def composedNDim (subs : List SubModel) : Nat := (subs.map (·.nDim)).sum
 
 def composedNCov (subs : List SubModel) : Nat := (subs.map (·.nCov)).sum
 
+/-! ### `ReducedPopulationModel` around any population model: the fixed-parameter filter on the return forms
+
+`dtheta[~mask]` on the separate / flattened form, and on the hierarchical form the split of the wrapped model's
+vector at the wrapped model's number of BOTTOM-level entries (`n_hierarchical_parameters(n_ids)[0]` — pooled and
+heterogeneous dimensions have none) followed by the same filter on the top-level block. -/
+
+/-- `x[~mask]` for a boolean mask: numpy raises `IndexError` when the lengths differ (`none`) -/
+def maskFree {β : Type} : List Bool → List β → Option (List β)
+  | [], [] => some []
+  | m :: ms, x :: xs => (maskFree ms xs).map (fun r => if m then r else x :: r)
+  | _, _ => none
+
+/-- `np.hstack((dscore[:n_bottom], dscore[n_bottom:][~mask]))` -/
+def reducedHier {β : Type} (nBottom : Nat) (mask : List Bool) (v : List β) : Option (List β) :=
+  (maskFree mask (v.drop nBottom)).map (fun r => v.take nBottom ++ r)
+
+/-- number of free parameters -/
+def nFree (mask : List Bool) : Nat := (mask.filter (fun b => !b)).length
+
 end ChiModel
